@@ -58,6 +58,13 @@ for g in groups:
             for f in fails:
                 if any(fl in f for fl in files):
                     hit.append('%s: %s' % (pid, f[5:120]))
+        if not hit:
+            # the FAIL line may name another file (e.g. the creating site of a created-vs-removed agreement rule): match the functions of the patch
+            fnames = set(re.findall(r'fn (\w+)', ' '.join(re.findall(r'^@@.*@@(.*)$', patch, re.M)) + ' ' + ' '.join(re.findall(r'^[-+].*fn (\w+)', patch, re.M))))
+            for pid, (rc, fails) in out.items():
+                for f in fails:
+                    if any(('::%s::' % fn_) in f for fn_ in fnames):
+                        hit.append('%s: %s' % (pid, f[5:120]))
         res[s] = hit
         print('%s %s %s' % (s, 'CAUGHT' if hit else 'MISSED', hit[:2]))
 missed = [s for s, h in res.items() if not h]
